@@ -472,6 +472,9 @@ func ExecRPlan(p *RPlan, trace bool) *core.Result {
 				cls = "undercount"
 			}
 			viol("C03", "lost-sum-mismatch", cls, "call #%d (%s): EventsLost reported %d in this call, %d sequence numbers were skipped by the events it delivered", i, ropNames[op.K], lostInCall, expectedLost)
+			if op.K == opClose && !closeSeen {
+				viol("C19", "close-loss-accounting", cls, "Close (call #%d) reported %d lost events, its flush skipped %d sequence numbers", i, lostInCall, expectedLost)
+			}
 		}
 
 		// --- after-call invariants ---
